@@ -238,7 +238,7 @@ var profiles = map[string]profile{
 		},
 		plays: func(r *rand.Rand, k int) []PlayOpts {
 			return []PlayOpts{{Order: orders[k%3], RestartEvery: 1}, {Order: "gen", RestartEvery: 1, BuildEach: true},
-				{Order: orders[(k+1)%3], RestartEvery: 5 + r.Intn(9)}, {Order: orders[(k+1)%3]}}
+				{Order: orders[(k+1)%3], RestartEvery: 5 + r.Intn(9), RichBuilds: 0.5}, {Order: orders[(k+1)%3], RichBuilds: 0.5, MHB: true}}
 		},
 	},
 	// epoch sealing and direct resets
